@@ -60,8 +60,15 @@ def replay_case(case):
     terms = []
     if case["icpt"]:
         terms.append(Term([Factor("1", eval_method="literal")]))
-    for t in case["terms"]:
-        terms.append(Term([Factor(factor_expr(f, contrast), eval_method="python" if (KIND[f] == "cat" and contrast) else "lookup") for f in t]))
+    for ti, t in enumerate(case["terms"]):
+        # the factor order inside a term is irrelevant to the property; it is permuted per term so that the same factors
+        # meet in different written orders across terms
+        order = list(t)
+        if (h >> (3 + ti)) & 1:
+            order = order[::-1]
+        elif (h >> (7 + ti)) & 1 and len(order) >= 3:
+            order = order[1:] + order[:1]
+        terms.append(Term([Factor(factor_expr(f, contrast), eval_method="python" if (KIND[f] == "cat" and contrast) else "lookup") for f in order]))
     F = Formula(terms, _ordering="none")
     kw = {"cluster_by": "numerical_factors"} if case["cluster"] else {}
     rec = {"id": 0, "formula": [str(t) for t in terms], "contrast": contrast, "levels": levels, "cluster": case["cluster"]}
@@ -141,8 +148,12 @@ def run(ctx: Ctx) -> None:
         if v.startswith("diag:"):
             diag += 1
             v = ""
-        if v and numeric_ok:
-            raise MachineryError(f"lemma and numpy disagree on {rec['formula']} ({v}; ranks {rec['rank']}/{rec['ncols']})")
+        # The lemma is an equivalence when every categorical factor has >= 2 levels (a one-level factor has an empty
+        # reduced coding, so a piece spanned twice adds no column); in that case a disagreement between the structural
+        # and the numerical verdict means the machinery is wrong, not the library.
+        if bool(v) != (not numeric_ok) and min(rec["levels"].values()) >= 2:
+            raise MachineryError(f"lemma and numpy disagree on {rec['formula']} ({v or 'partition ok'}; ranks {rec['rank']}/{rec['ncols']}, "
+                                 f"unreduced {rec['rank_unreduced']}, joint {rec['rank_joint']})")
         if v or not numeric_ok:
             ctx.violation(case, {"why": v or "rank/span", "ncols": rec["ncols"], "rank": rec["rank"], "rank_unreduced": rec["rank_unreduced"],
                                  "rank_joint": rec["rank_joint"], "observed_structure": rec["scoped"], "model_structure": rec["expected_scoped"]}, kind="replay")
